@@ -62,7 +62,9 @@ def gen_expr(rng, depth=0, avoid=''):
     r = rng.random()
     if depth > 2 or r < .18:
         return rng.choice(['v', 'n', 's', 't', 'z', 'fl', 'uni', 'e', "d['k']" if "'" not in avoid else 'd["k"]',
-                           '42', '-1', 'True', 'lst'])
+                           '42', '-1', 'True', 'lst'] + ([
+                               # literals holding empty lines: one character per line break, whatever it is turned into
+                               "len('''a\n\nb''')", 'len("""p\n \n\nq""")', "len('''x\n\n\n''') + n"] if not avoid else []))
     if r < .34:
         return gen_string_literal(rng, avoid)
     if r < .42:
